@@ -663,6 +663,14 @@ class Body:
                         self.fire('R4std')
                         continue
                     # std::vector<...> / std::string / std::array<...> as a type: map whole type
+                    if nm in ('ios_base', 'ios'):
+                        # std::ios_base::out / ::openmode ...  ->  OP2_IOS_out / OP2_IOS_openmode (values of the platform's library: assumed)
+                        c1 = next_sig(toks, b); c2 = next_sig(toks, c1)
+                        if toks[c1].t != '::' or toks[c2].k != 'id': raise ExtractionBreak('std::ios_base form')
+                        out.append(T('id', 'OP2_IOS_' + toks[c2].t))
+                        i = c2 + 1
+                        self.fire('R4ios')
+                        continue
                     if nm in ('vector', 'array', 'string', 'unique_ptr'):
                         e = b
                         n2 = next_sig(toks, b)
